@@ -23,6 +23,7 @@
 // status: F = ran to completion, B = never got past operation <pc> (blocked when the run ended), K = target of a Kill.
 // Kill/Suspend/Resume/Join may target finished actors (the ActorPtr is kept): harmless no-ops of the S4U API.
 // Clocks are printed with %.17g (exact binary64).
+#include <simgrid/Exception.hpp>
 #include <simgrid/s4u.hpp>
 #include <simgrid/s4u/Barrier.hpp>
 #include <simgrid/s4u/ConditionVariable.hpp>
@@ -110,6 +111,7 @@ static void actor_body(int me)
     st.hooked = false;
     st.cur_op = (int)i;
     long long r = 0;
+    try {
     switch (op.code) {
       case 0:
         sg4::this_actor::sleep_for(op.a / 8.0);
@@ -184,6 +186,11 @@ static void actor_body(int me)
         break;
       default:
         break;
+    }
+    } catch (const simgrid::NetworkFailureException&) { // e.g. the peer of a communication was killed
+      r = -101;
+    } catch (const simgrid::Exception&) {
+      r = -100;
     }
     st.cur_op = -1;
     st.log.push_back({(int)i, r, sg4::Engine::get_clock()});
